@@ -23,6 +23,8 @@ import SqiProofs.C17.Kernel
 import SqiProofs.C17.Kernel2
 import SqiProofs.C17.RepInt
 import SqiProofs.C17.CornComplete
+import SqiProofs.C17.CornGeneral
+import SqiProofs.C17.Unit
 import SqiProofs.Primes
 
 namespace SqiProps.C17
@@ -365,7 +367,7 @@ example : ibzCornacchiaPrime 1 29 = .ok (5, 2) ∧ ibzCornacchiaPrime 1 2 = .ok 
     x² + y² = p.  No existence hypothesis is needed: the Euclidean-descent invariant (a·u_b + b·u_a = p,
     p | a² + u_a², p | b² + u_b², p | ab − u_a u_b) shows that the first remainder below √p gives a representation — a
     constructive proof of Fermat's two-square theorem on the model of the C code.
-    For general n completeness stays unproved (partial): the same invariant only yields x² + n·u² = m·p with 1 ≤ m ≤ n. -/
+    (General n: `cornacchia_prime_complete` below.) -/
 theorem cornacchia_prime_complete_n1 (pn : Nat) (hp : pn.Prime) (h4 : pn = 2 ∨ pn % 4 = 1) :
     ∃ x y : Int, ibzCornacchiaPrime 1 pn = .ok (x, y) ∧ x * x + y * y = pn := by
   rcases h4 with h2 | h4
@@ -390,6 +392,87 @@ theorem cornacchia_prime_complete_n1 (pn : Nat) (hp : pn.Prime) (h4 : pn = 2 ∨
     simp only [hne, if_false, hr, hloop]
     exact cornFinish_one _ _ _ hu0 hcu
 example : ibzCornacchiaPrime 1 13 = .ok (3, 2) ∧ ibzCornacchiaPrime 1 97 = .ok (9, 4) ∧ Nat.Prime 97 := by decide
+
+/-- COMPLETENESS of `ibz_cornacchia_prime` for EVERY n ≥ 1 and every odd prime p (Cornacchia's theorem on the model of the C):
+    if x² + n·y² = p has a solution with x ≠ 0 (equivalently gcd(n, p) = 1) then the routine returns a solution.
+    Proof: lattice of the root r returned by `ibz_sqrt_mod_p`, Euclidean-descent invariants with cofactors
+    (a·u_b + b·u_a = p, a ≡ ε u_a r, b ≡ −ε u_b r), Lagrange identity (c² + n u²)(x0² + n y0²) = E² + n D² at the first
+    remainder below √p, and a case analysis (parallel vectors ⇒ same solution; transversal case impossible for n ≥ 2). -/
+theorem cornacchia_prime_complete (pn : Nat) (hp : pn.Prime) (hp2 : pn ≠ 2) (n x0 y0 : Int) (hn : 1 ≤ n) (hx0 : x0 ≠ 0)
+    (hsol : x0 * x0 + n * (y0 * y0) = pn) :
+    ∃ x y : Int, ibzCornacchiaPrime n pn = .ok (x, y) ∧ x * x + n * (y * y) = pn := by
+  haveI := Fact.mk hp
+  -- WLOG x0 ≥ 1
+  obtain ⟨X, hX1, hXsol⟩ : ∃ X : Int, 1 ≤ X ∧ X * X + n * (y0 * y0) = pn := by
+    refine ⟨(x0.natAbs : Int), by have := Int.natAbs_pos.mpr hx0; omega, ?_⟩
+    rw [← Int.natCast_mul, Int.natAbs_mul_self]; exact hsol
+  have hppos : (0 : Int) < pn := by have := hp.pos; omega
+  have hpI : (pn : Int) ≠ 0 := by omega
+  -- −n is a square modulo p
+  have hcop := coprime_of_sol pn hp n X y0 hX1 hXsol hn
+  have hy0F : ((y0 : Int) : ZMod pn) ≠ 0 := by
+    intro h0
+    have hpy : (pn : Int) ∣ y0 := (ZMod.intCast_zmod_eq_zero_iff_dvd y0 pn).mp h0
+    have hpx : (pn : Int) ∣ X * X := by
+      have : X * X = pn - n * (y0 * y0) := by omega
+      rw [this]; exact Int.dvd_sub (dvd_refl _) (Dvd.dvd.mul_left (Dvd.dvd.mul_right hpy _) _)
+    have hpX : (pn : Int) ∣ X := by
+      rcases (Nat.prime_iff_prime_int.mp hp).dvd_or_dvd hpx with h | h <;> exact h
+    have h1 : (pn : Int) ∣ 1 := hcop.isUnit_of_dvd' hpX (Dvd.dvd.mul_left hpy _) |>.dvd
+    have := Int.le_of_dvd (by omega) h1
+    have := hp.two_le; omega
+  have hF : ((X : Int) : ZMod pn) * X + n * ((y0 : ZMod pn) * y0) = 0 := by
+    have := congrArg (fun z : Int => (z : ZMod pn)) hXsol
+    simpa using this
+  have hsq : IsSquare (((0 - n : Int)) : ZMod pn) := by
+    refine ⟨(X : ZMod pn) * (y0 : ZMod pn)⁻¹, ?_⟩
+    push_cast
+    field_simp
+    linear_combination -hF
+  obtain ⟨r, hr⟩ := sqrt_mod_p_complete pn hp (0 - n) hsq
+  obtain ⟨hr0, hrp, hrr⟩ := sqrt_mod_p_sound pn hp (0 - n) r hr
+  have hrn : (pn : Int) ∣ r * r + n := by
+    have := Int.dvd_of_emod_eq_zero hrr
+    have e : r * r - (0 - n) = r * r + n := by ring
+    rwa [e] at this
+  -- the solution lies in the lattice of r (up to the sign of y0)
+  obtain ⟨y1, hy1sol, hy1lat⟩ : ∃ y1 : Int, X * X + n * (y1 * y1) = pn ∧ (pn : Int) ∣ X - r * y1 := by
+    rcases sol_in_lattice pn hp n r X y0 hXsol hrn with h | h
+    · exact ⟨y0, hXsol, h⟩
+    · exact ⟨-y0, by rw [← hXsol]; ring, h⟩
+  -- run the loop
+  have hloop : ∃ c u : Int, cornLoop pn ((pn : Int).natAbs + 2) r pn = .ok (c, c * c) ∧ 0 ≤ c ∧ 0 ≤ u ∧
+      c * c + n * (u * u) = pn := by
+    rw [Int.natAbs_natCast]
+    show ∃ c u : Int, cornLoop pn ((pn + 1) + 1) r pn = .ok (c, c * c) ∧ 0 ≤ c ∧ 0 ≤ u ∧ c * c + n * (u * u) = pn
+    unfold cornLoop
+    simp only [hpI, if_false]
+    rw [Int.tmod_eq_emod_of_nonneg hr0, Int.emod_eq_of_lt hr0 hrp]
+    by_cases hge : r * r ≥ (pn : Int)
+    · simp only [hge, if_true]
+      have hrpos : 0 < r := by
+        rcases lt_or_ge 0 r with h | h
+        · exact h
+        · have : r = 0 := by omega
+          rw [this] at hge; omega
+      exact cornLoop_descent_n pn hp n r X y1 hn hX1 hy1sol hrn hy1lat (pn + 1) pn r 0 1 (-1) hrpos hrp (le_refl _)
+        (by omega) (by omega) (by ring) ⟨1, by ring⟩ ⟨0, by ring⟩ (by ring) hge
+    · simp only [hge, if_false]
+      refine ⟨r, 1, rfl, hr0, by omega, ?_⟩
+      have := corn_final pn hp n r 1 pn 0 X y1 r 1 hn hX1 hy1sol hrn (by ring) ⟨0, by ring⟩
+        (by have e : X - 1 * r * y1 = X - r * y1 := by ring
+            rw [e]; exact hy1lat)
+        hr0 (by omega) (by omega) (le_refl _) (by omega) hrp
+        (by have := hp.two_le; nlinarith) (by ring)
+      linear_combination this
+  obtain ⟨c, u, hl, hc0, hu0, hcu⟩ := hloop
+  refine ⟨c, u, ?_, hcu⟩
+  unfold ibzCornacchiaPrime
+  have hne : ((pn : Int) = 2) = False := by simp; omega
+  simp only [hne, if_false, hr, hl]
+  exact cornFinish_n n pn c u hn hu0 hcu
+example : ibzCornacchiaPrime 2 11 = .ok (3, 1) ∧ ibzCornacchiaPrime 7 43 = .ok (6, 1) ∧
+    (3 : Int) * 3 + 2 * (1 * 1) = 11 ∧ Nat.Prime 43 := by decide
 
 /-- `ibz_cornacchia_special_prime` (x² + n·y² = 2^e·p), repaired code: never a false solution under the documented
     contract n ≡ 3 (mod 4) alone — no coprimality side condition any more (p | n now reports failure). -/
@@ -616,5 +699,39 @@ theorem ker_pow2_check_sound (mat : Mat) (e : Nat) (v : List Int) (h : kerPow2Ch
 /-- `dotInt` is the usual dot product -/
 theorem dotInt_cons (a b : Int) (r w : List Int) : dotInt (a :: r) (b :: w) = a * b + dotInt r w := rfl
 example : kerPow2Check [[1, 2, 0, 0], [0, 0, 4, 4], [2, 4, 0, 0], [0, 0, 0, 8]] 3 [2, 7, 1, 1] = true := by decide
+
+/-! ## 10. Building blocks of the Howell form (matkermod.c) that ARE proved
+
+The Howell-form algorithm as a whole has no theorem (see the header of §8 and notes/C17.md); two of its ingredients do: -/
+
+/-- `unit` (static helper: Stabilizer/Split): for every modulus N > 0 and every x ≠ 0 the returned u is reduced, a unit
+    modulo N, and u·x ≡ gcd(x, N) (mod N); the returned gcd is gcd(x, N) -/
+theorem howell_unit_spec (x N : Int) (hN : 0 < N) (hx : x ≠ 0) :
+    (SqiModel.Howell.unit x N).1 = true ∧ (SqiModel.Howell.unit x N).2.2 = (Int.gcd x N : Int) ∧
+    0 ≤ (SqiModel.Howell.unit x N).2.1 ∧ (SqiModel.Howell.unit x N).2.1 < N ∧
+    Int.gcd (SqiModel.Howell.unit x N).2.1 N = 1 ∧
+    ((SqiModel.Howell.unit x N).2.1 * x) % N = (Int.gcd x N : Int) % N :=
+  unit_spec x N hN hx
+example : SqiModel.Howell.unit 6 12 = (true, 1, 6) ∧ SqiModel.Howell.unit 10 12 = (true, 11, 2) ∧
+    SqiModel.Howell.unit 0 12 = (false, 0, 0) := by decide
+
+/-- the 2×2 matrix [[s, u], [t, v]] that `ibz_xgcd_ann` hands to `gen_elem` is unimodular (determinant 1), so `gen_elem` applied
+    to whole columns is an invertible column operation -/
+theorem xgcd_ann_unimodular (a b : Int) (h : a ≠ 0 ∨ b ≠ 0) :
+    let r := ibzXgcdAnn a b
+    r.2.1 * r.2.2.2.2 - r.2.2.1 * r.2.2.2.1 = 1 := by
+  obtain ⟨hg, hbez, _, hs, ht⟩ := xgcd_ann_spec a b h
+  simp only at hg hbez hs ht ⊢
+  generalize ibzXgcdAnn a b = r at hg hbez hs ht
+  obtain ⟨g, s, t, u, v⟩ := r
+  simp only at hg hbez hs ht ⊢
+  have hg0 : g ≠ 0 := by
+    rw [hg]; intro h0
+    have : Int.gcd a b = 0 := by exact_mod_cast h0
+    rw [Int.gcd_eq_zero_iff] at this; omega
+  have : g * (s * v - t * u - 1) = 0 := by linear_combination v * hs - u * ht + hbez
+  rcases Int.mul_eq_zero.mp this with h1 | h1
+  · exact absurd h1 hg0
+  · omega
 
 end SqiProps.C17
